@@ -20,6 +20,7 @@ func init() {
 		Explain: "Decides C09 as a closed set of proof obligations: starting from every memberlist delegate method serf registers (and the goroutines that consume the data those hand over by channel), it computes the set of module functions reachable on the call graph and enumerates in them every construct that can panic on some input — slice/string/array indexing and slicing, explicit panics, unchecked type assertions, integer division by a non-constant, writes through a possibly-nil map, dereferences of pointers taken out of decoded containers, and make() with a non-constant length. Each obligation must be discharged by one of a fixed list of sound idioms the repository actually uses (dominating length/nil guards on the same access path, range induction variables, comma-ok, LastIndex/!=-1 guards, modulus by the same length, enum who-may-write arguments, caller-established preconditions, ...). Anything no rule decides fails the check. Resource exhaustion, deadlock and panics inside dependencies are not covered; go-msgpack's Decode recovering its own panics is part of the trusted base (re-checked in the thorough tier).",
 		Run:     runC09,
 		Mutants: []Mutant{
+			{Name: "ack-decoded-into-pointer", File: "serf/ping_delegate.go", Func: "func (p *pingDelegate) NotifyPingComplete(", Old: "\tvar coord coordinate.Coordinate\n\tif err := dec.Decode(&coord); err != nil {", New: "\tvar coordp *coordinate.Coordinate\n\tif err := dec.Decode(&coordp); err != nil {", Old2: "\tbefore := p.serf.coordClient.GetCoordinate()\n", New2: "\tcoord := *coordp\n\tbefore := p.serf.coordClient.GetCoordinate()\n", Expect: "P6"},
 			{Name: "notifymsg-no-empty-check", File: "serf/delegate.go", Func: "func (d *delegate) NotifyMsg(", Old: "\tif len(buf) == 0 {\n\t\treturn\n\t}\n", New: "", Expect: "P1"},
 			{Name: "merge-no-empty-check", File: "serf/delegate.go", Func: "func (d *delegate) MergeRemoteState(", Old: "\tif len(buf) == 0 {\n\t\td.serf.logger.Printf(\"[ERR] serf: Remote state is zero bytes\")\n\t\treturn\n\t}\n", New: "", Expect: "P1"},
 			{Name: "merge-nil-events-unchecked", File: "serf/delegate.go", Func: "func (d *delegate) MergeRemoteState(", Old: "\t\tif events == nil {\n\t\t\tcontinue\n\t\t}\n", New: "", Expect: "P6"},
@@ -206,6 +207,20 @@ func enumPanics(fn *ssa.Function) []pob {
 				if _, isFA := x.X.(*ssa.FieldAddr); isFA {
 					return
 				}
+				// a pointer variable that is itself a decode target (var p *T; Decode(&p)) is nil after
+				// decoding a nil: every use of the loaded pointer other than a nil test is an obligation
+				if al, ok := x.X.(*ssa.Alloc); ok && decodedPointerVar(al) {
+					for _, u := range *x.Referrers() {
+						if b, isB := u.(*ssa.BinOp); isB && (b.Op == token.EQL || b.Op == token.NEQ) {
+							continue
+						}
+						if _, isDbg := u.(*ssa.DebugRef); isDbg {
+							continue
+						}
+						out = append(out, pob{"P6", fn, u, "use of pointer variable " + an.Path(x) + " that is a decode target (nil after decoding a nil)"})
+					}
+					return
+				}
 				if src := decodedPointerSource(x.X); src != "" {
 					out = append(out, pob{"P6", fn, in, "dereference of " + an.Path(x.X) + " (" + src + ")"})
 				}
@@ -213,6 +228,39 @@ func enumPanics(fn *ssa.Function) []pob {
 		}
 	})
 	return out
+}
+
+// decodedPointerVar: al is a local of pointer type whose address is handed to a decoder.
+func decodedPointerVar(al *ssa.Alloc) bool {
+	pt, ok := al.Type().Underlying().(*types.Pointer)
+	if !ok {
+		return false
+	}
+	if _, ok := pt.Elem().Underlying().(*types.Pointer); !ok {
+		return false
+	}
+	for _, r := range *al.Referrers() {
+		mi, ok := r.(*ssa.MakeInterface)
+		if !ok {
+			continue
+		}
+		for _, u := range *mi.Referrers() {
+			cc := an.CallOf(u)
+			if cc == nil {
+				continue
+			}
+			name := ""
+			if f := an.StaticCallee(cc); f != nil {
+				name = f.Name()
+			} else if cc.IsInvoke() {
+				name = cc.Method.Name()
+			}
+			if strings.Contains(name, "ecode") || strings.Contains(name, "nmarshal") {
+				return true
+			}
+		}
+	}
+	return false
 }
 
 // decodedPointerSource classifies a pointer value that was taken out of a
